@@ -5,6 +5,7 @@ import BufProofs.Props.C15
 import BufProofs.Props.C01
 import BufProofs.Props.C08
 import BufProofs.Props.C20
+import BufProofs.Lemmas.OrderClauseLemmas
 /-
   C02 — Outputs are deterministic and independent of scheduling and enumeration order.
 
@@ -191,6 +192,327 @@ theorem report_capped_counterexample :
     reportSorted (fun a b : Nat => decide (a ≤ b)) (some 1) [1, 2] ≠
       reportSorted (fun a b : Nat => decide (a ≤ b)) (some 1) [2, 1] := by
   simp [reportSorted, collectCapped, collectSorted]
+
+/-! ### The join: the call returns only after every dispatched job has finished -/
+
+/-- What holds in every state of the machine `prun` (any event list whatsoever). -/
+structure PInv (par : Nat) (s : PSt) : Prop where
+  retIdle : s.returned = true → s.running = []
+  cover : ∀ i ∈ s.started, i ∈ s.running ∨ i ∈ s.finished
+  bound : s.running.length ≤ par
+
+theorem pinv_init (par : Nat) : PInv par PSt.init :=
+  ⟨fun _ => rfl, fun _ h => (nomatch h), Nat.zero_le _⟩
+
+theorem pstep_inv (par : Nat) (s : PSt) (inv : PInv par s) (e : PEv) : PInv par (pstep par s e) := by
+  cases e with
+  | start i =>
+    simp only [pstep, pstepWith]
+    split
+    · exact inv
+    · rename_i hc
+      simp only [Bool.or_eq_true, decide_eq_true_eq, not_or, Bool.not_eq_true] at hc
+      obtain ⟨⟨hret, hlen⟩, _⟩ := hc
+      refine ⟨?_, ?_, ?_⟩
+      · intro h; simp only at h; rw [hret] at h; cases h
+      · intro j hj
+        rcases List.mem_cons.mp hj with e | hj
+        · left; subst e; exact List.mem_cons_self
+        · rcases inv.cover j hj with h | h
+          · left; exact List.mem_cons_of_mem _ h
+          · right; exact h
+      · simp only [List.length_cons]; omega
+  | finish i =>
+    simp only [pstep, pstepWith]
+    split
+    · rename_i hc
+      refine ⟨?_, ?_, ?_⟩
+      · intro h; simp only at h
+        have := inv.retIdle h
+        rw [this] at hc; simp at hc
+      · intro j hj
+        simp only at hj
+        rcases inv.cover j hj with h | h
+        · by_cases e : j = i
+          · right; subst e; exact List.mem_cons_self
+          · left; exact (List.mem_erase_of_ne e).mpr h
+        · right; exact List.mem_cons_of_mem _ h
+      · exact Nat.le_trans (List.erase_sublist).length_le inv.bound
+    · exact inv
+  | ret =>
+    simp only [pstep, pstepWith]
+    split
+    · exact inv
+    · split
+      · rename_i hr
+        exact ⟨fun _ => by simpa using hr, inv.cover, inv.bound⟩
+      · exact inv
+
+theorem prun_inv (par : Nat) (evs : List PEv) (s : PSt) (inv : PInv par s) : PInv par (prun par s evs) := by
+  induction evs generalizing s with
+  | nil => exact inv
+  | cons e rest ih => exact ih _ (pstep_inv par s inv e)
+
+/-- parallelize_waits_for_all_dispatched: whatever the schedule (ANY list of start / finish /
+    return events — disabled ones are no-ops), once `thread.Parallelize` has returned no job of it is
+    running, and every job that ever started has finished.  With or without cancel-on-failure, with
+    or without a failing job: the code path to the return is `wg.Wait()`. -/
+theorem parallelize_waits_for_all_dispatched (par : Nat) (evs : List PEv)
+    (h : (prun par PSt.init evs).returned = true) :
+    (prun par PSt.init evs).running = [] ∧
+      ∀ i ∈ (prun par PSt.init evs).started, i ∈ (prun par PSt.init evs).finished := by
+  have inv := prun_inv par evs PSt.init (pinv_init par)
+  have hr := inv.retIdle h
+  refine ⟨hr, fun i hi => ?_⟩
+  rcases inv.cover i hi with h' | h'
+  · rw [hr] at h'; cases h'
+  · exact h'
+
+/-- … and after the return nothing happens any more: no job starts, none is left to finish. -/
+theorem parallelize_inert_after_return (par : Nat) (s : PSt) (hret : s.returned = true) (hrun : s.running = [])
+    (e : PEv) : pstep par s e = s := by
+  cases e with
+  | start i => simp [pstep, pstepWith, hret]
+  | finish i => simp [pstep, pstepWith, hrun]
+  | ret => simp [pstep, pstepWith, hret]
+
+theorem parallelize_nothing_after_return (par : Nat) (evs later : List PEv)
+    (h : (prun par PSt.init evs).returned = true) :
+    prun par PSt.init (evs ++ later) = prun par PSt.init evs := by
+  have hrun := (parallelize_waits_for_all_dispatched par evs h).1
+  unfold prun at *
+  rw [List.foldl_append]
+  generalize List.foldl (pstep par) PSt.init evs = s at h hrun
+  induction later with
+  | nil => rfl
+  | cons e rest ih =>
+    simp only [List.foldl_cons]
+    rw [parallelize_inert_after_return par s h hrun e]
+    exact ih
+
+/-- "A max of Parallelism jobs will be run at once." -/
+theorem parallelize_at_most_par_running (par : Nat) (evs : List PEv) :
+    (prun par PSt.init evs).running.length ≤ par :=
+  (prun_inv par evs PSt.init (pinv_init par)).bound
+
+/-- The stored regression (seed C09-m8, "fail fast"): if the call may return as soon as a finished
+    job has failed, it returns while job 0 is still running — and job 0's later writes happen
+    after the caller (the module cache's store) has released its lock. -/
+theorem parallelize_failfast_counterexample :
+    let s := prunWith (some [false, true]) 2 PSt.init [.start 0, .start 1, .finish 1, .ret]
+    s.returned = true ∧ s.running = [0] ∧
+      (prunWith (some [false, true]) 2 s [.finish 0]).finished = [0, 1] := by decide
+
+-- the return is reachable (the theorems above are not vacuous), and the same events under the code that exists
+example : (prun 2 PSt.init [.start 0, .start 1, .finish 1, .finish 0, .ret]).returned = true := by decide
+example : (prun 2 PSt.init [.start 0, .start 1, .finish 1, .ret]).returned = false := by decide
+example : (prun 1 PSt.init [.start 0, .start 1]).running = [0] := by decide
+
+/-! ## Order clauses on FILTERED images (bufimageutil `--type` / FilterImage)
+
+  `closure.imports[file]` is a Go map: its iteration order is part of the schedule.  The harness
+  family "filter" (harness/cmd/c02/filterfam.go) checks the statements below on the real code. -/
+section Filtered
+open BufModel.Filter BufModel.OrderClauses BufProofs.OrderClause BufProofs.FilterRewrite
+
+/-- The rewritten dependency list of a filtered file does not depend on the order in which the
+    map iteration hands over the required imports (any permutation of the closure's import edges). -/
+theorem filter_dependency_list_map_order_irrelevant (st₁ st₂ : St) (f : File)
+    (h : st₁.edges.Perm st₂.edges) :
+    (remapDeps st₁ f).1.map (·.file) = (remapDeps st₂ f).1.map (·.file) := by
+  rw [oc_remapDeps_eq, oc_remapDeps_eq,
+    oc_keptDeps_perm (oc_requiredOf_perm h f) f, oc_gainedDeps_perm (oc_requiredOf_perm h f) f]
+
+/-- … and it has the shape the harness oracle checks ("as coded"): the kept imports in their old
+    relative order, followed by the imports gained through `import public` in strictly ascending
+    order; the gained ones were not in the old list, and everything listed is required. -/
+theorem filter_dependency_list_shape (st : St) (f : File) :
+    ∃ kept gained : List Id,
+      (remapDeps st f).1.map (·.file) = kept ++ gained ∧
+      kept.Sublist (f.deps.map (·.file)) ∧
+      gained.Pairwise (· < ·) ∧
+      (∀ x ∈ gained, x ∉ f.deps.map (·.file)) ∧
+      (∀ x ∈ kept ++ gained, (f.id, x) ∈ st.edges) := by
+  refine ⟨keptDeps (requiredOf st f) f, gainedDeps (requiredOf st f) f, oc_remapDeps_eq st f, ?_, ?_, ?_, ?_⟩
+  · exact List.filter_sublist
+  · exact oc_sortNat_strict (oc_nodup_eraseDups _ _ (Nat.le_refl _))
+  · intro x hx
+    unfold gainedDeps at hx
+    rw [mem_sortNat, List.mem_eraseDups, List.mem_filter] at hx
+    simpa using hx.2
+  · intro x hx
+    have hreq : x ∈ requiredOf st f := by
+      rcases List.mem_append.mp hx with hk | hg
+      · unfold keptDeps at hk
+        have := (List.mem_filter.mp hk).2
+        simpa using this
+      · unfold gainedDeps at hg
+        rw [mem_sortNat, List.mem_eraseDups, List.mem_filter] at hg
+        exact hg.1
+    unfold requiredOf at hreq
+    simp only [List.mem_map, List.mem_filter] at hreq
+    obtain ⟨e, ⟨he, hid⟩, hx2⟩ := hreq
+    have hid' : e.1 = f.id := by simpa using hid
+    have : e = (f.id, x) := by cases e; simp_all
+    rw [← this]; exact he
+
+/-- The filter never reorders files: the surviving files are a SUBLIST of the source image … -/
+theorem filter_keeps_file_order (cfg : Cfg) (hcfg : cfg.keepsInputWhenEmpty = false) (st : St) (noInc : Bool)
+    (img : Image) (out : List OFile) (h : rewrite cfg st noInc img = .ok out) :
+    (out.map (·.id)).Sublist (img.files.map (·.id)) := by
+  unfold rewrite at h
+  simp only [] at h
+  split at h
+  · cases h
+  · split at h
+    · rw [hcfg] at h
+      simp only [Bool.false_eq_true, if_false] at h
+      cases h
+    · cases h
+      exact (oc_filterMap_ids_sublist _ _).trans (List.filter_sublist.map _)
+
+/-- … hence the filtered image is in dependency order whenever the closure's import edges point
+    backwards in the source image (they do: the source image is topologically ordered and lists
+    every transitively imported file before its importer): NO file of the result lists a LATER
+    file of the result as a dependency. -/
+theorem filter_order_topological (cfg : Cfg) (hcfg : cfg.keepsInputWhenEmpty = false) (st : St) (noInc : Bool)
+    (img : Image) (out : List OFile) (h : rewrite cfg st noInc img = .ok out)
+    (hsrc : img.files.Pairwise (fun a b => (a.id, b.id) ∉ st.edges)) :
+    out.Pairwise (fun a b => b.id ∉ a.deps) := by
+  unfold rewrite at h
+  simp only [] at h
+  split at h
+  · cases h
+  · split at h
+    · rw [hcfg] at h
+      simp only [Bool.false_eq_true, if_false] at h
+      cases h
+    · cases h
+      refine List.Pairwise.filterMap _ ?_ (hsrc.sublist List.filter_sublist)
+      intro a a' hR b hb b' hb'
+      obtain ⟨hid, hdeps⟩ := remapFile_deps _ a b hb
+      obtain ⟨hid', _⟩ := remapFile_deps _ a' b' hb'
+      intro hm
+      rw [hdeps] at hm
+      obtain ⟨k, g, hkg, _, _, _, hall⟩ := filter_dependency_list_shape st a
+      rw [hkg] at hm
+      have := hall _ hm
+      rw [hid'] at this
+      exact hR this
+
+/-- The regression of seed C02-m7 (the gained imports appended in map iteration order): two
+    iteration orders of the same two import edges give different dependency lists. -/
+theorem filter_dependency_arrival_order_counterexample :
+    remapDepsArrival { edges := [(0, 2), (0, 1)] } ⟨0, 0, false, [⟨3, false⟩], [], [], [], [], [], [], []⟩ ≠
+      remapDepsArrival { edges := [(0, 1), (0, 2)] } ⟨0, 0, false, [⟨3, false⟩], [], [], [], [], [], [], []⟩ := by
+  decide
+
+example : (remapDeps { edges := [(0, 2), (0, 1), (0, 3)] } ⟨0, 0, false, [⟨3, true⟩, ⟨4, false⟩], [], [], [], [], [], [], []⟩).1.map (·.file)
+    = [3, 1, 2] := by decide
+example : (remapDeps { edges := [(0, 1), (0, 3), (0, 2)] } ⟨0, 0, false, [⟨3, true⟩, ⟨4, false⟩], [], [], [], [], [], [], []⟩).1.map (·.file)
+    = [3, 1, 2] :=
+  (filter_dependency_list_map_order_irrelevant _ { edges := [(0, 2), (0, 1), (0, 3)] } _ (by decide)).trans (by decide)
+
+end Filtered
+
+/-! ## Overlapping `--path` / `--exclude-path` arguments
+
+  `moduleReadBucket.WalkFileInfos` walks the target paths one after the other with a per-file
+  seen-set (`BufModel.Targeting.moduleTargetFiles`).  The harness family "overlap"
+  (harness/cmd/c02/overlap.go) checks the statements below on the real code. -/
+section Overlap
+open BufModel.Path BufModel.Graph BufModel.Targeting BufModel.OrderClauses BufProofs.OrderClause
+
+/-- No file twice, however the target paths overlap and in whatever order they were listed. -/
+theorem target_walk_no_file_twice (t : TWS) (m : Nat) (hnd : ((modFiles t.ws m).map (·.path)).Nodup) :
+    ((moduleTargetFiles t m).1.map (·.path)).Nodup :=
+  moduleTargetFiles_nodup hnd
+
+/-- The target files of a module are a function of the SETS of `--path` and `--exclude-path`
+    values: permuting either list permutes the walk at most, and the sorted target list (what
+    ls-files prints and the compiler is given) is the same. -/
+theorem target_walk_path_order_irrelevant (ws : WS) (cfgs₁ cfgs₂ : List TCfg) (m : Nat)
+    (hnd : ((modFiles ws m).map (·.path)).Nodup)
+    (hpf₁ : (cfgOf ⟨ws, cfgs₁⟩ m).protoFile = []) (hpf₂ : (cfgOf ⟨ws, cfgs₂⟩ m).protoFile = [])
+    (hp : (cfgOf ⟨ws, cfgs₁⟩ m).paths.Perm (cfgOf ⟨ws, cfgs₂⟩ m).paths)
+    (he : (cfgOf ⟨ws, cfgs₁⟩ m).excludes.Perm (cfgOf ⟨ws, cfgs₂⟩ m).excludes) :
+    (moduleTargetFiles ⟨ws, cfgs₁⟩ m).1.Perm (moduleTargetFiles ⟨ws, cfgs₂⟩ m).1 ∧
+      sortPaths ((moduleTargetFiles ⟨ws, cfgs₁⟩ m).1.map (·.path)) =
+        sortPaths ((moduleTargetFiles ⟨ws, cfgs₂⟩ m).1.map (·.path)) := by
+  have wf₁ : WfCfg (cfgOf ⟨ws, cfgs₁⟩ m) := fun hne => absurd hpf₁ hne
+  have wf₂ : WfCfg (cfgOf ⟨ws, cfgs₂⟩ m) := fun hne => absurd hpf₂ hne
+  have htgt : ∀ f, isTargetIn ⟨ws, cfgs₁⟩ m f = isTargetIn ⟨ws, cfgs₂⟩ m f := by
+    intro f
+    apply Bool.eq_iff_iff.mpr
+    unfold isTargetIn
+    rw [isTargetFile_paths_iff _ _ _ _ hpf₁, isTargetFile_paths_iff _ _ _ _ hpf₂]
+    have hnil : (cfgOf ⟨ws, cfgs₁⟩ m).paths = [] ↔ (cfgOf ⟨ws, cfgs₂⟩ m).paths = [] :=
+      ⟨fun h => List.Perm.eq_nil (h ▸ hp.symm), fun h => List.Perm.eq_nil (h ▸ hp)⟩
+    have hex : (∃ q ∈ (cfgOf ⟨ws, cfgs₁⟩ m).paths, equalsOrContainsPath q f.path = true) ↔
+        (∃ q ∈ (cfgOf ⟨ws, cfgs₂⟩ m).paths, equalsOrContainsPath q f.path = true) :=
+      ⟨fun ⟨q, hq, h⟩ => ⟨q, hp.mem_iff.mp hq, h⟩, fun ⟨q, hq, h⟩ => ⟨q, hp.mem_iff.mpr hq, h⟩⟩
+    have hall : (∀ q ∈ (cfgOf ⟨ws, cfgs₁⟩ m).excludes, equalsOrContainsPath q f.path = false) ↔
+        (∀ q ∈ (cfgOf ⟨ws, cfgs₂⟩ m).excludes, equalsOrContainsPath q f.path = false) :=
+      ⟨fun h q hq => h q (he.mem_iff.mpr hq), fun h q hq => h q (he.mem_iff.mp hq)⟩
+    show (modIsTarget ⟨ws, cfgs₁⟩ m = true ∧ _ ∧ _) ↔ (modIsTarget ⟨ws, cfgs₂⟩ m = true ∧ _ ∧ _)
+    rw [hnil, hex, hall]
+    rfl
+  have hmem : ∀ f, f ∈ (moduleTargetFiles ⟨ws, cfgs₁⟩ m).1 ↔ f ∈ (moduleTargetFiles ⟨ws, cfgs₂⟩ m).1 := by
+    intro f
+    rw [mem_moduleTargetFiles wf₁, mem_moduleTargetFiles wf₂, htgt f]
+  have n₁ := moduleTargetFiles_nodup (t := ⟨ws, cfgs₁⟩) (m := m) hnd
+  have n₂ := moduleTargetFiles_nodup (t := ⟨ws, cfgs₂⟩) (m := m) hnd
+  refine ⟨(List.perm_ext_iff_of_nodup (oc_nodup_of_map _ n₁) (oc_nodup_of_map _ n₂)).mpr hmem, ?_⟩
+  apply sortPaths_eq_of_mem_iff n₁ n₂
+  intro p
+  simp only [List.mem_map]
+  exact ⟨fun ⟨f, hf, e⟩ => ⟨f, (hmem f).mp hf, e⟩, fun ⟨f, hf, e⟩ => ⟨f, (hmem f).mpr hf, e⟩⟩
+
+/-- An overlapping list equals its covering paths alone: a `--path p` that lies inside another
+    listed `--path q` adds nothing (paths and file paths normalised and validated, as the CLI
+    and the buckets guarantee). -/
+theorem target_walk_overlap_equals_cover (ws : WS) (cfgs₁ cfgs₂ : List TCfg) (m : Nat) (p q : Str)
+    (hpf₁ : (cfgOf ⟨ws, cfgs₁⟩ m).protoFile = []) (hpf₂ : (cfgOf ⟨ws, cfgs₂⟩ m).protoFile = [])
+    (hp : (cfgOf ⟨ws, cfgs₁⟩ m).paths = p :: (cfgOf ⟨ws, cfgs₂⟩ m).paths)
+    (hq : q ∈ (cfgOf ⟨ws, cfgs₂⟩ m).paths) (hqp : equalsOrContainsPath q p = true)
+    (he : (cfgOf ⟨ws, cfgs₁⟩ m).excludes = (cfgOf ⟨ws, cfgs₂⟩ m).excludes)
+    (kp : OcKey p) (kq : OcKey q) (kf : ∀ f ∈ modFiles ws m, OcKey f.path) (f : PFile) :
+    f ∈ (moduleTargetFiles ⟨ws, cfgs₁⟩ m).1 ↔ f ∈ (moduleTargetFiles ⟨ws, cfgs₂⟩ m).1 := by
+  have wf₁ : WfCfg (cfgOf ⟨ws, cfgs₁⟩ m) := fun hne => absurd hpf₁ hne
+  have wf₂ : WfCfg (cfgOf ⟨ws, cfgs₂⟩ m) := fun hne => absurd hpf₂ hne
+  rw [mem_moduleTargetFiles wf₁, mem_moduleTargetFiles wf₂]
+  show (f ∈ modFiles ws m ∧ _) ↔ (f ∈ modFiles ws m ∧ _)
+  refine and_congr_right fun hf => ?_
+  unfold isTargetIn
+  rw [isTargetFile_paths_iff _ _ _ _ hpf₁, isTargetFile_paths_iff _ _ _ _ hpf₂, hp, he]
+  have hne₂ : (cfgOf ⟨ws, cfgs₂⟩ m).paths ≠ [] := List.ne_nil_of_mem hq
+  show (modIsTarget ⟨ws, cfgs₁⟩ m = true ∧ _ ∧ _) ↔ (modIsTarget ⟨ws, cfgs₂⟩ m = true ∧ _ ∧ _)
+  refine and_congr Iff.rfl (and_congr ?_ Iff.rfl)
+  constructor
+  · rintro (h | ⟨r, hr, hrf⟩)
+    · cases h
+    · right
+      rcases List.mem_cons.mp hr with rfl | hr
+      · exact ⟨q, hq, oc_ecp_trans kq kp (kf f hf) hqp hrf⟩
+      · exact ⟨r, hr, hrf⟩
+  · rintro (h | ⟨r, hr, hrf⟩)
+    · exact absurd h hne₂
+    · exact Or.inr ⟨r, List.mem_cons_of_mem _ hr, hrf⟩
+
+/-- The regression of seed C02-m8 ("skip a target path covered by an already walked one" without
+    the per-file seen-set): with the sub-path listed FIRST the parent is walked in full and the
+    files of the sub-path are reported twice; parent first is fine. -/
+theorem target_walk_skip_covered_counterexample :
+    let files : List PFile := [⟨"a/b/y.proto".toList, [], []⟩, ⟨"a/x.proto".toList, [], []⟩]
+    (walkSkipCovered files ["a".toList, "a/b".toList] []).map (·.path) = ["a/b/y.proto".toList, "a/x.proto".toList] ∧
+    (walkSkipCovered files ["a/b".toList, "a".toList] []).map (·.path) =
+      ["a/b/y.proto".toList, "a/b/y.proto".toList, "a/x.proto".toList] := by
+  decide
+
+example : ((moduleTargetFiles ⟨⟨[⟨[⟨"a/b/y.proto".toList, [], []⟩, ⟨"a/x.proto".toList, [], []⟩], true, true, none, 0⟩], []⟩,
+    [⟨["a/b".toList, "a".toList], [], [], false⟩]⟩ 0).1.map (·.path)) = ["a/b/y.proto".toList, "a/x.proto".toList] := by decide
+
+end Overlap
 
 -- non-vacuity
 example : verdict true [⟨false, false⟩, ⟨true, false⟩, ⟨false, true⟩] = true := by decide
